@@ -499,6 +499,11 @@ impl<T> Block for NoCopyFileSink<T>""")]),
 ALL_BUILT = ["C03", "C08", "C12", "C13", "C14", "C15", "C19", "C01", "C02", "C04", "C05", "C06", "C07", "C09", "C16", "C17", "C18"]
 
 NEUTRAL = [
+    dict(name="n-consume-compare-subtract-wrap", props=["C01", "C02", "C03"],
+         edits=[E("src/circular_buffer.rs", "        let newpos = (s.rpos + n) % s.capacity();", """        let mut newpos = s.rpos + n;
+        if newpos >= s.capacity() {
+            newpos -= s.capacity();
+        }""")]),
     dict(name="n-rename-local-produce", props=["C01", "C02"],
          edits=[E("src/circular_buffer.rs", """        let mut s = lock.lock().unwrap();
         assert!(
